@@ -19,7 +19,7 @@ INV_PROP = {
 }
 EV_PROP = {
     "enter": "C13",
-    "recv": "C14", "cancelobserved": "C14", "returned": "C14", "sending": "C14",
+    "recv": ("C13", "C14"), "cancelobserved": "C14", "returned": "C14", "sending": ("C13", "C14"),
     "acquired": "C15", "locked": "C15", "acquiring": "C15", "locking": "C15", "write": "C15", "flush": "C15", "releasing": "C15", "unlocking": "C15", "frag": "C15",
     "idle": "C16", "sort": "C16", "run": "C16", "alldone": "C16", "hang": "C16", "panic": "C16",
     "add": "C16", "dep": "C16", "retries": "C16", "deferr": "C16", "config": "C16",
@@ -93,16 +93,20 @@ MC_CONFIGS = {
 DRIVERS = {
     "C13": [("rand", ["-maxv", "4", "-weird", "0.05"], 480, 12000), ("rand", ["-maxv", "6", "-weird", "0"], 160, 4000),
             ("exhaust", ["-v", "4", "-outs", "nil,skipparents", "-orders", "3"], 0, 0),
-            ("exhaust", ["-v", "3", "-outs", "nil,err,skipparents", "-orders", "2", "-limit", "2"], 0, 0)],
+            ("exhaust", ["-v", "3", "-outs", "nil,err,skipparents", "-orders", "2", "-limit", "2"], 0, 0),
+            ("follow", [], 800, 16000)],
     "C14": [("rand", ["-maxv", "4", "-weird", "0.05"], 480, 12000), ("rand", ["-maxv", "5", "-weird", "0"], 160, 4000),
             ("exhaust", ["-v", "4", "-outs", "nil,skipparents", "-orders", "3"], 0, 0),
-            ("exhaust", ["-v", "4", "-outs", "nil,err", "-orders", "2", "-limit", "2"], 0, 0)],
+            ("exhaust", ["-v", "4", "-outs", "nil,err", "-orders", "2", "-limit", "2"], 0, 0),
+            ("follow", [], 800, 16000)],
     "C15": [("rand", ["-maxv", "4", "-weird", "0.05"], 320, 8000), ("two", ["-maxv", "3"], 160, 4000),
             ("exhaust", ["-v", "4", "-outs", "nil", "-orders", "1", "-limit", "1"], 0, 0),
             ("exhaust", ["-v", "4", "-outs", "nil", "-orders", "1", "-limit", "2"], 0, 0),
-            ("exhaust", ["-v", "3", "-outs", "nil,err,skipparents", "-orders", "1", "-serial"], 0, 0)],
+            ("exhaust", ["-v", "3", "-outs", "nil,err,skipparents", "-orders", "1", "-serial"], 0, 0),
+            ("follow", [], 800, 16000)],
     "C16": [("rand", ["-maxv", "4", "-weird", "0.6"], 480, 12000), ("rand", ["-maxv", "3", "-weird", "0.9"], 160, 4000),
-            ("exhaust", ["-v", "3", "-outs", "nil,err", "-orders", "1", "-limit", "1"], 0, 0)],
+            ("exhaust", ["-v", "3", "-outs", "nil,err", "-orders", "1", "-limit", "1"], 0, 0),
+            ("follow", [], 480, 16000)],
 }
 THOROUGH_EXTRA = {
     "C13": [("exhaust", ["-v", "4", "-outs", "nil,err,skipparents", "-orders", "3"], 0, 0), ("exhaust", ["-v", "5", "-outs", "nil,skipparents", "-orders", "2", "-limit", "2"], 0, 0)],
@@ -139,6 +143,39 @@ MANIFEST_TEXT = {
     "C15": _mt("DESIGN.md 6 C15", "ExecBound, SerialOne, SerialHB, TaskMutex (other graph modelled as an environment that locks the shared Task) and BlocksWhole are TLC invariants; real runs with low limits, serial mode, output buffering with multi-fragment tasks (recording writer) and two graphs sharing Task objects run concurrently are validated event by event (acquired only below the limit, every Write call equal to exactly one attempt's output)."),
     "C16": _mt("DESIGN.md 6 C16", "Termination, ReadyStarts and InFlightFinish are checked by TLC under fairness; construction histories (AddTask / TaskDependsOn / TaskRetries in any order and repetition, duplicate and self edges, lookups of unknown tasks) up to 4 (thorough 5) calls are explored before Run; in recorded real runs an `idle` tick is accepted only when the spec has nothing eligible and is not done (work conservation), cycles / definition errors must be answered before any launch, DepthFirstSort output must be topological, and a run whose scheduler idles 3000 times with nothing else in flight is a stall."),
 }
+
+
+SIM_CFG = """INIT SimInit
+NEXT SimNext
+CONSTANTS
+  Tasks = {1, 2, 3}
+  MaxRetries = 1
+  Mode = "run"
+  Limits = {1, 2}
+  Serials = {FALSE, TRUE}
+  Buffereds = {FALSE}
+  MaxHist = 0
+  WithCancel = TRUE
+  WithEnvLock = FALSE
+  Outcomes = {"nil", "err", "skipparents"}
+  MaxFrags = 0
+INVARIANT EmitBehaviour
+CHECK_DEADLOCK FALSE
+"""
+
+
+def simulate(work, name, num, seed):
+    """Behaviours of Dag.tla generated by TLC in simulation mode -> ndjson file for `dagdrive follow`."""
+    rc, out, d = tlc(work, "sim-" + name, "DagSim", SIM_CFG, workers=1, heap="1g", timeout=1800,
+                     extra=["-simulate", "num=%d" % num, "-depth", "150", "-seed", str(seed)])
+    msgs = [m for m in tlc_messages(out) if m.get("k") == "BEHAVIOUR"]
+    if not msgs:
+        raise Broken("TLC simulation produced no behaviour:\n" + "\n".join(out.splitlines()[-20:]))
+    path = os.path.join(work, "tr", name + ".behaviours.ndjson")
+    with open(path, "w") as f:
+        for m in msgs:
+            f.write(json.dumps(m) + "\n")
+    return path
 
 
 def run_mc(work, prop, tier):
@@ -220,7 +257,8 @@ def attribute(r):
     ev = r["event"].get("ev")
     if ev == "launch":
         return DIAG_PROP.get(r["why"] or "", ("C14",))
-    return (EV_PROP.get(ev, "C16"),)
+    p = EV_PROP.get(ev, "C16")
+    return p if isinstance(p, tuple) else (p,)
 
 
 def check(prop, tier, seed, work, replay, t0):
@@ -246,9 +284,12 @@ def check(prop, tier, seed, work, replay, t0):
                 args = [dagdrive, sub, "-seed", str(seed * 100000 + di * 1000 + k), "-out", part, "-runbase", str(di * 10000000)] + list(extra)
                 if sub == "exhaust":
                     args += ["-shard", str(k), "-of", str(NCPU)]
+                elif sub == "follow":
+                    # model -> code: behaviours generated by TLC from the specification are replayed on the real code
+                    args += ["-in", simulate(work, "%s-%d" % (name, di), per, seed * 1000 + di * 100 + k)]
                 else:
                     args += ["-n", str(per)]
-                if sub in ("rand", "exhaust"):
+                if sub in ("rand", "exhaust", "follow"):
                     args += ["-plans", ppart]
                 p = subprocess.run(args, stdout=subprocess.PIPE, stderr=subprocess.STDOUT, text=True, env=GOENV, timeout=7200)
                 if p.returncode != 0:
